@@ -115,7 +115,8 @@ B3 = {
     "C06": [dict(gen="Gen_Canary", quick="Full = FALSE", thorough="Full = TRUE", props=["P_C06", "P_C08", "P_C14"])],
     "C09": [dict(gen="Gen_Limits", quick='MaxN = 4\n  Reps = 1\n  MaxUs = {"1"}\n  MaxSFs = {"0"}\n  Variants <- VariantsQuick',
                  thorough='MaxN = 5\n  Reps = 1\n  MaxUs = {"1", "50%"}\n  MaxSFs = {"0"}\n  Variants <- VariantsThorough', props=["P_C09", "P_C08"])],
-    "C08": [dict(gen="Gen_Limits", quick='MaxN = 3\n  Reps = 1\n  MaxUs = {"1", "2"}\n  MaxSFs = {"0"}\n  Variants <- VariantsQuick',
+    "C08": [dict(gen="Gen_Canary", quick="Full = FALSE", thorough="Full = TRUE", props=["P_C08"]),
+            dict(gen="Gen_Limits", quick='MaxN = 3\n  Reps = 1\n  MaxUs = {"1", "2"}\n  MaxSFs = {"0"}\n  Variants <- VariantsQuick',
                  thorough='MaxN = 4\n  Reps = 2\n  MaxUs = {"1", "2", "50%"}\n  MaxSFs = {"0", "1"}\n  Variants <- VariantsQuick', props=["P_C08", "P_C09"])],
     "C03": [dict(gen="Gen_Limits",
                  quick='MaxN = 4\n  Reps = 2\n  MaxUs = {"0", "1", "2", "50%"}\n  MaxSFs = {"0", "1"}\n  Variants <- VariantsQuick',
@@ -142,7 +143,7 @@ for _p in ("C12", "C13", "C14", "C01"):
 
 # ---- fault enumeration: scenarios per tier; formulas judged on the faulted runs ----
 FAULTS = {
-    "C11": {"quick": "first-deployment,rolling-update,canary-failure-rollback,node-removal",
+    "C11": {"quick": "first-deployment,rolling-update,canary-promotion,canary-failure-rollback,node-removal",
             "thorough": "first-deployment,rolling-update,canary-promotion,canary-failure-rollback,node-removal,settings-change,manual-fail-command",
             "pairs": 150, "props": ["P_C11", "P_C11f", "P_C02", "P_C07"], "invs": ["I_C13"]},
     "C07": {"quick": "canary-failure-rollback,manual-fail-command", "thorough": "canary-failure-rollback,manual-fail-command,canary-promotion",
